@@ -19,6 +19,13 @@ RULE = ("C01's generator biased to banner/macro bodies (indented, blank and deep
         "stretches) and every sequence of length <= 3 (quick) / <= 4 (thorough) containing a start over the 11 link symbols; "
         "The oracle also requires, on fresh "
         "parses, that every line owned by a banner / macro start (Spec/BannerLinks) is a direct child of exactly that start. "
+        "Coverage streams (harness/covreport.py, notes/coverage/C03.json): 'viewsx' -- link-token, nested-block, banner and plain "
+        "configs whose dump also carries has_children and geneology_text (model Ccp.Model.TreeViews, channel treex), 40 % of them "
+        "under one more parse option set (tuple config, debug 1/2/4/5 -- the 'if debug' statements of _banner_mark_regex and "
+        "_add_child_to_parent --, auto_commit=False, auto_indent_width); the oracle rebuilds both views from the links and the texts; "
+        "'junos' -- brace-syntax configs (C08's tree generator, all layouts, with comments): converted texts, links, stored child "
+        "lists and all nine views of CiscoConfParse(lines, syntax='junos') against C08's junosParse + the shared view functions, "
+        "judged by the same forest oracle; 10 % of the stored-list stream runs under debug / tuple options. "
         "non-trivial = the parse has a line with a parent; distinct by request.")
 LEVEL_TEXT = ("Theorems (Lean 4, no size bounds; Ccp.Props.C03 over the model Ccp.Model.Tree of ConfigList.bootstrap for the indentation "
               "syntaxes and of the BaseCfgLine family views). parse_forest / bootstrap_forest / link_forest: for every text list and every "
@@ -50,6 +57,9 @@ LEVEL_TEXT = ("Theorems (Lean 4, no size bounds; Ccp.Props.C03 over the model Cc
               "option set, a line owned by a start line s -- the last 'macro name' line (ios) whose stretch reaches it, else the last banner "
               "start whose stretch reaches it; stretches include the closing line and run to the end when unterminated -- has s < i, parent "
               "s, occurs exactly once in s's child list and in no other: banner / macro families are flat however the body is indented. "
+              "geneologyText_spec: for every forest geneology_text is the texts along the path root -> line (one per ancestor, root "
+              "first, then the line's own text; never empty); hasChildren_spec: has_children = is_parent, true iff some other line names "
+              "the line as its parent. Both apply to brace-syntax parses through C08's junos_forest. "
               "All theorems are at full strength; none is partial. The correspondence checks on every run that the implementation's raw "
               "parent / _children attributes equal the stored-list model's (full parse, one bootstrap, after the indentation loop) and that "
               "its seven views equal the parent-only model's.")
@@ -58,8 +68,11 @@ LEVEL_NOTE = ("Trusted: Lean kernel, standard axioms (propext, Classical.choice,
               "hand-written banner/macro scanners it shares with Ccp.Model.Tree) is the code is measured by the correspondence on every run on "
               "the raw attributes, as is the agreement of the seven views. Not proved here: the forest invariant after arbitrary committed edit sequences (commit_forest; the "
               "re-bootstrap that commit() performs is covered, the edit operations are C07's state machine) and for brace-syntax (junos) "
-              "trees (C08's model).")
-ASSUMPTIONS = ["no lone surrogates", "brace syntax trees are covered by C08's check, edit histories by C07's"]
+              "trees (C08's model; since the coverage streams the nine views of junos parses are compared here with C08's junosParse + "
+              "the shared view functions and judged by the forest oracle). Anchored statements never executed by the quick run: 36 of "
+              "166 before the coverage streams, 22 after (legacy keyword arguments of BaseCfgLine.__init__, the children setter / type "
+              "guard, the search_safe refusal of all_parents -- a stale state, C07's subject --, 'obj.text is None' in the banner walk).")
+ASSUMPTIONS = ["no lone surrogates", "that brace-syntax parses are forests is proved in C08 (junos_forest); edit histories are C07's"]
 TRUSTED = ["hand-written scanners for the banner regexes"]
 EXHAUSTIVE = {"quick": False, "thorough": False}
 
@@ -111,6 +124,24 @@ def cases(rng, tier):
                 lines += T.rand_macro_block(rng)
             lines += T.rand_config(rng, 6, True, delims)
         yield mk(rng.choice(T.SYNTAXES), rng.random() < 0.3, delims, lines)
+    # coverage streams (notes/coverage/C03.json): the two views the seven-view dump leaves out (geneology_text,
+    # has_children; model Ccp.Model.TreeViews, channel treex), some of them under one more parse option set (tuple config,
+    # debug levels: the `if debug` statements of the banner walk and of _add_child_to_parent), and brace-syntax parses
+    for k in range({"quick": 700, "thorough": 30000, "search": 800}[tier]):
+        delims = rng.choice(T.DELIM_SETS)
+        r = rng.random()
+        if r < 0.3:
+            lines = T.rand_link_config(rng, delims)
+        elif r < 0.55:
+            lines = T.rand_nested_config(rng, delims)
+        elif r < 0.8:
+            lines = T.rand_banner_block(rng, delims) + T.rand_config(rng, 6, True, delims)
+        else:
+            lines = T.rand_config(rng, 10, False, delims)
+        yield T.with_options(mk_x(rng.choice(["ios", "ios"] + T.SYNTAXES), rng.random() < 0.3, delims, lines), T.rand_options(rng, 0.4))
+    from props import c08 as B
+    for k in range({"quick": 300, "thorough": 10000, "search": 300}[tier]):
+        yield mk_junos(B.tree_case(rng, "tree" if rng.random() < 0.8 else "cmtafter")["lines"])
     # the STORED links (raw `parent` / `_children` attributes) against the stored-list model Ccp.Model.TreeStored
     for c in STORED_CORPUS:
         for ign in (False, True):
@@ -124,8 +155,8 @@ def cases(rng, tier):
         delims = rng.choice(T.DELIM_SETS)
         r = rng.random()
         op = "stored" if r < 0.6 else ("boot" if r < 0.85 else "pass1")
-        yield mk_stored(op, rng.choice(["ios", "ios"] + T.SYNTAXES), op != "pass1" and rng.random() < 0.5, delims,
-                        rand_stored_lines(rng, delims))
+        yield T.with_options(mk_stored(op, rng.choice(["ios", "ios"] + T.SYNTAXES), op != "pass1" and rng.random() < 0.5, delims,
+                                       rand_stored_lines(rng, delims)), T.rand_options(rng, 0.1))
 
 
 # hand-picked inputs of the stored-list stream: F02's witness, a body line that is an indentation child of another
@@ -188,6 +219,25 @@ def mk_stored(op, syntax, ign, delims, lines, origin="gen"):
     return c
 
 
+def mk_x(syntax, ign, delims, lines, origin="viewsx"):
+    """links + the seven views + has_children + geneology_text, against channel treex"""
+    c = T.mk_case("forestx", syntax, False, ign, delims, lines, origin)
+    c["stream"] = "viewsx"
+    if c["req"] is not None:
+        ds = T.cfg_delims(syntax, delims)
+        c["req"] = wire.req("treex", "forestx", "1" if syntax == "ios" else "0", wire.enc_str("".join(ds)),
+                            "1" if ign else "0", wire.enc_strs(lines))
+    return c
+
+
+def mk_junos(lines, origin="junos"):
+    """a brace-syntax parse: converted texts, links and the extended views (model: C08's junosParse + the shared views)"""
+    c = {"syntax": "junos", "factory": False, "ignore_blank": False, "delims": None, "lines": list(lines), "op": "junos",
+         "_origin": origin, "stream": "junos"}
+    c["req"] = wire.req("treex", "junos", wire.enc_strs(lines)) if all(wire.wire_safe(l) for l in lines) else None
+    return c
+
+
 def neighbours(case, rng):
     for _ in range(200):
         ls = list(case["lines"])
@@ -196,7 +246,11 @@ def neighbours(case, rng):
         else:
             ls.insert(rng.randrange(len(ls) + 1), T.rand_plain_line(rng, case["delims"]))
         if case.get("stream") == "stored":
-            yield mk_stored(case["op"], case["syntax"], case["ignore_blank"], case["delims"], ls)
+            yield T.with_options(mk_stored(case["op"], case["syntax"], case["ignore_blank"], case["delims"], ls), case.get("opts"))
+        elif case.get("stream") == "viewsx":
+            yield T.with_options(mk_x(case["syntax"], case["ignore_blank"], case["delims"], ls), case.get("opts"))
+        elif case.get("stream") == "junos":
+            yield mk_junos(ls)
         else:
             yield mk(case["syntax"], case["ignore_blank"], case["delims"], ls)
 
@@ -220,7 +274,7 @@ def dump_stored(objs):
 
 def impl_stored(case):
     try:
-        p = T.parse_impl(case)
+        p = T.parse_impl_opts(case)
         cl = p.config_objs
         if case["op"] != "stored":
             if case["op"] == "pass1":
@@ -233,9 +287,34 @@ def impl_stored(case):
     return dump_stored(list(cl.data))
 
 
+def dump_views_x(parse):
+    out = []
+    for o in parse.objs:
+        out.append("/".join([
+            T.lnums(o.all_children), T.lnums(o.all_parents), T.lnums(o.lineage), T.lnums(o.geneology),
+            str(o.family_endpoint), T.lnums(o.siblings),
+            ("1" if o.is_parent else "0") + ("1" if o.is_child else "0"),
+            "1" if o.has_children else "0", wire.enc_strs(o.geneology_text),
+        ]))
+    return "|".join(out)
+
+
+def impl_junos(case):
+    ccp = T.quiet_ccp()
+    try:
+        p = ccp.CiscoConfParse(list(case["lines"]), syntax="junos")
+    except Exception as e:  # noqa: BLE001 -- ParseException (pyparsing) or ValueError on unbalanced input
+        return "err:" + type(e).__name__
+    return wire.enc_strs([o.text for o in p.objs]) + "&" + T.dump_links(p) + "&" + dump_views_x(p)
+
+
 def impl(case):
     if case.get("stream") == "stored":
         return impl_stored(case)
+    if case.get("stream") == "viewsx":
+        return T.run_impl_opts(case, lambda p: T.dump_links(p) + "&" + dump_views_x(p))
+    if case.get("stream") == "junos":
+        return impl_junos(case)
 
     def dump(p):
         return T.dump_links(p) + "&" + T.dump_views(p)
@@ -381,9 +460,40 @@ def parse_dump(ans):
     return parents, children, views
 
 
+def check_extra(parents, children, views_w, texts):
+    """has_children and geneology_text of every line, from the links and the texts alone"""
+    fails = []
+    for i, v in enumerate(views_w.split("|") if parents else []):
+        f = v.split("/")
+        chain, j = [], i
+        while parents[j] != j:
+            j = parents[j]
+            chain.append(j)
+        want = [texts[j] for j in sorted(chain)] + [texts[i]]
+        if f[7] != ("1" if children[i] else "0"):
+            fails.append(f"has_children of {i} = {f[7]}, its child list is {children[i]}")
+        if wire.dec_strs(f[8]) != want:
+            fails.append(f"geneology_text of {i} = {wire.dec_strs(f[8])!r}, the texts from the root down to the line are {want!r}")
+    return fails[:3]
+
+
 def oracle(case, ans):
     if ans.startswith("err:"):
         return [f"parse raised {ans}"]
+    if case.get("stream") in ("viewsx", "junos"):
+        if case["stream"] == "junos":
+            texts_w, ans = ans.split("&", 1)
+            kept = wire.dec_strs(texts_w)
+        else:
+            kept = T.ref_kept(case["lines"], case["syntax"] == "ios", case["ignore_blank"])
+        parents, children, views = parse_dump(ans)
+        if len(kept) != len(parents):
+            return [] if case["stream"] == "viewsx" else [f"{len(kept)} texts but {len(parents)} parents"]
+        indents = [len(t) - len(t.lstrip()) for t in kept]
+        fails = check_forest(parents, children, views, indents)
+        if not fails and case["stream"] == "viewsx":
+            fails = check_owners(kept, case["syntax"] == "ios", parents, children, indents)
+        return (fails or check_extra(parents, children, ans.split("&")[1], kept))[:3]
     if case.get("stream") == "stored":
         parents_w, children_w = ans.split("|")
         nat = lambda w: [int(x) for x in w.split(",")] if w else []  # noqa: E731
@@ -399,15 +509,21 @@ def oracle(case, ans):
     indents = [len(t) - len(t.lstrip()) for t in kept]
     fails = check_forest(parents, children, views, indents)
     if case.get("ops") is None and not fails:
-        # banner / macro families are flat: a line owned by a start line is a direct child of exactly that start
-        for i, (mo, bo) in enumerate(T.owners(kept, case["syntax"] == "ios")):
-            o = mo if mo is not None else bo
-            if o is not None and (parents[i] != o or i not in children[o]):
-                fails.append(f"line {i} lies in the stretch of start line {o} but its parent is {parents[i]} "
-                             f"and the child list of {o} is {children[o]}")
-            if o is None and parents[i] != i and indents[i] == 0:
-                fails.append(f"unindented line {i} outside every banner / macro stretch has parent {parents[i]}")
+        fails = check_owners(kept, case["syntax"] == "ios", parents, children, indents)
     return fails[:3]
+
+
+def check_owners(kept, ios, parents, children, indents):
+    """banner / macro families are flat: a line owned by a start line is a direct child of exactly that start"""
+    fails = []
+    for i, (mo, bo) in enumerate(T.owners(kept, ios)):
+        o = mo if mo is not None else bo
+        if o is not None and (parents[i] != o or i not in children[o]):
+            fails.append(f"line {i} lies in the stretch of start line {o} but its parent is {parents[i]} "
+                         f"and the child list of {o} is {children[o]}")
+        if o is None and parents[i] != i and indents[i] == 0:
+            fails.append(f"unindented line {i} outside every banner / macro stretch has parent {parents[i]}")
+    return fails
 
 
 def nontrivial(case):
@@ -419,8 +535,8 @@ def describe(case):
         return {k: case[k] for k in ("syntax", "ignore_blank", "lines", "ops")}
     if len(case["lines"]) > 30:
         return {"syntax": case["syntax"], "n_lines": len(case["lines"]), "origin": case.get("_origin")}
-    if case.get("stream") == "stored":
-        return {k: case[k] for k in ("stream", "op", "syntax", "ignore_blank", "delims", "lines")}
+    if case.get("stream") in ("stored", "viewsx", "junos"):
+        return {k: case[k] for k in ("stream", "op", "syntax", "ignore_blank", "delims", "lines", "opts") if k in case}
     return {k: case[k] for k in ("syntax", "ignore_blank", "delims", "lines")}
 
 
@@ -436,6 +552,10 @@ def buckets(case, ans):
     if any(l[:11] == "macro name " for l in case["lines"]):
         out.append("has:macro")
     out.append("origin:" + case.get("_origin", "gen").split(":")[0])
+    if case.get("opts"):
+        out += T.opt_buckets(case)
+    if case.get("stream") == "junos":
+        return out + ["answer:" + (ans if ans.startswith("err:") else "ok")]
     if case.get("ops") is None and len(case["lines"]) <= 40 and ("has:banner" in out or "has:macro" in out):
         kept = T.ref_kept(case["lines"], case["syntax"] == "ios", case["ignore_blank"])
         out += ["feat:" + f for f in sorted(T.link_features(kept, case["syntax"] == "ios", T.cfg_delims(case["syntax"], case["delims"])))]
